@@ -722,12 +722,12 @@ def cfg_term(run):
 def leading_nl(x):
     """a string (value, key, attribute) that begins with a newline, at any depth"""
     if isinstance(x, str):
-        return x.startswith("\n")
+        return x.startswith("\n") or any(c in x for c in "\u0085\u2028\u2029")   # YAML line breaks: block-scalar emission
     if isinstance(x, dict):
         return any(leading_nl(k) or leading_nl(v) for k, v in x.items())
     if isinstance(x, list):
         if len(x) == 3 and x[0] == "str" and isinstance(x[2], list):
-            return bool(x[2]) and x[2][0] == 10
+            return bool(x[2]) and (x[2][0] == 10 or any(c in (0x85, 0x2028, 0x2029) for c in x[2]))
         return any(leading_nl(y) for y in x)
     return False
 
@@ -793,7 +793,17 @@ CORR_ONLY = ("dec", "wire_dec", "csv_dec")
 
 def main(tier, seed, replay=None):
     run = Run(PROP, tier, seed)
-    vh, proof = prepare(PROP_FILES, thorough=(tier == "thorough"))
+    vh, proof = prepare(PROP_FILES, thorough=False)
+    if tier == "thorough" and proof.get("ok") and not replay:
+        # coqchk needs the full logical name (common.prepare(thorough=True) passes "Properties.C13", which it cannot resolve)
+        cmd = "timeout 2400 coqchk -silent -o -Q . Arrai Arrai.Properties.C13 Arrai.Check.C13Check"
+        rc, so, se = sh(cmd, timeout=2500, cwd=COQ)
+        proof["coqchk"] = (so + se)[-1500:]
+        proof["checker_cmd"] += " ; " + cmd
+        if rc != 0:
+            proof["broken"].append({"what": "coqchk failed", "log": (so + se)[-1500:]})
+            proof["ok"] = False
+            proof["discharged"] = 0
     if replay:
         rp = json.load(open(replay))
         cases = [rp["case"]] if "case" in rp else []
